@@ -59,6 +59,7 @@ PROPS = {
  ),
  'C01': dict(
     modules=['SlacProps.C01', 'SlacProps.C01Text', 'SlacProps.C01Source'], translate=True,
+    srcgen={'SrcParser': 'SlacProps.C01Parser'},
     streams=[
         dict(name='parsekinds', n=n(4, 5), view='okfull', oracle='none'),
         dict(name='parse', n=n(40000, 1000000), view='okfull', oracle='none'),
@@ -120,7 +121,8 @@ PROPS = {
     trusted=[FLOAT_TB],
  ),
  'C07': dict(
-    modules=['SlacProps.C07Parser', 'SlacProps.C07Scanner'],
+    modules=['SlacProps.C07Parser', 'SlacProps.C07Scanner'], translate=True,
+    srcgen={'SrcParser': 'SlacProps.C01Parser'},
     streams=[
         dict(name='scanfrag', n=n(3, 4), view='class', oracle='none', laws=['no_crash']),
         dict(name='parsekinds', n=n(4, 5), view='class', oracle='none', laws=['no_crash']),
